@@ -172,6 +172,26 @@ func (bc *BaseComponent) GetAttribute(name string) *string {
 	return nil
 }
 
+// GetWrittenAttribute resolves an attribute through everything an author can write: the element's
+// own attribute, its mj-class definitions and the document's mj-attributes (the tag's defaults, then
+// mj-all). Built-in component defaults are not consulted; "" means nothing was written. Components
+// with their own inheritance rules (accordion, social, carousel) use it instead of reading the node's
+// attribute directly, which would ignore mj-class and mj-attributes.
+func (bc *BaseComponent) GetWrittenAttribute(name string) string {
+	if value, exists := bc.Attrs[name]; exists && value != "" {
+		return value
+	}
+	if classValue := bc.getClassAttribute(name); classValue != "" {
+		return classValue
+	}
+	if bc.Node != nil {
+		if globalValue := globals.GetGlobalAttribute(bc.Node.GetTagName(), name); globalValue != "" {
+			return normalizeAttributeValue(name, globalValue)
+		}
+	}
+	return ""
+}
+
 // GetAttributeFast gets an attribute value without debug logging using full resolution order
 func (bc *BaseComponent) GetAttributeFast(comp Component, name string) string {
 	// 1. Element attributes
